@@ -84,10 +84,19 @@ _C02 = {}
 for _k in ("sum.f", "prod.f", "latest.f"):
     for _n in range(1, 6):
         _C02["C02.cat:%s:%d" % (_k, _n)] = 4 ** _n            # every {E1,E2,absent,present} assignment, N = 1..5
-for _k in ("sum2.f", "prod2.f", "diff.f", "quot.f", "exp.f", "sum2.q", "prod2.q", "diff.q", "quot.q"):
-    _C02["C02.cat:%s:2" % _k] = 16
-_C02.update({"C02.cat:and:2": 25, "C02.cat:or:2": 25, "C02.cat:not:1": 5, "C02.cat:if.f:2": 20, "C02.cat:ifelse.f:3": 80,
-             "C02.cat:n2e.f:1": 4, "C02.cat:n2v.f:1": 4, "C02.cat:expirer.f:1": 4})
+# second enumerated block (comb.rs ENUM2): every other combinator x every category assignment
+for _k, _t in (("sum2.f", "FF"), ("prod2.f", "FF"), ("diff.f", "FF"), ("quot.f", "FF"), ("exp.f", "FF"),
+               ("sum2.q", "QQ"), ("prod2.q", "QQ"), ("diff.q", "QQ"), ("quot.q", "QQ"),
+               ("and", "BB"), ("or", "BB"), ("not", "B"), ("if.f", "BF"), ("if.b", "BB"), ("if.q", "BQ"),
+               ("ifelse.f", "BFF"), ("ifelse.q", "BQQ"), ("n2e.f", "F"), ("n2e.q", "Q"), ("n2v.f", "F"), ("n2v.b", "B"),
+               ("n2v.q", "Q"), ("expirer.f", "F"), ("expirer.b", "B"), ("expirer.q", "Q"),
+               ("latest.b", "B"), ("latest.b", "BB"), ("latest.b", "BBB"), ("latest.q", "Q"), ("latest.q", "QQ"),
+               ("latest.q", "QQQ"), ("sum.q", "Q"), ("sum.q", "QQ"), ("sum.q", "QQQ"), ("prod.q", "Q"), ("prod.q", "QQ"),
+               ("prod.q", "QQQ")):
+    _n = 1
+    for _c in _t:
+        _n *= 5 if _c == "B" else 4
+    _C02["C02.cat:%s:%d" % (_k, len(_t))] = _n
 REQUIRED_CELLS = {
     "C02": _C02,
     "C09": {"C09": 3590},            # every (reachable matching, connect/disconnect) pair on 2..6 terminals
@@ -722,6 +731,17 @@ def run_traces(binary, prop, seed, runs, first=0, strip=False, tier="quick"):
     return runs_out
 
 
+POW_ULPS = 4
+
+
+def ordered_bits(hx, hy):
+    """distance between two f32 bit patterns counted in representable values (ulps)"""
+    def key(h):
+        b = int(h, 16)
+        return -(b & 0x7fffffff) if b & 0x80000000 else b
+    return abs(key(hx) - key(hy))
+
+
 def f32_of(hexs):
     import struct
     return struct.unpack(">f", bytes.fromhex(hexs))[0]
@@ -755,6 +775,13 @@ def compare_runs(ref, other, backend):
                 continue
             if pow_run and backend == "micromath":
                 continue  # power function results exempt; category and timestamp already compared
+            if " POW -> " in a:
+                # the power function read directly (ExponentStream over two constants): libm and std may
+                # differ in the last ulps only, also when the result is subnormal
+                if backend == "libm" and ordered_bits(x, y) <= POW_ULPS:
+                    continue
+                return "line %d: power function %r vs %r (%d ulps apart, %d allowed)\n    ref:   %s\n    other: %s" % (
+                    i, fx, fy, ordered_bits(x, y), POW_ULPS, a[:300], b[:300])
             if pow_run and backend == "libm" and math.isfinite(fx) and math.isfinite(fy) and abs(fx - fy) <= 1e-4 * max(scale, 1e-30):
                 continue
             return "line %d: value %r vs %r\n    ref:   %s\n    other: %s" % (i, fx, fy, a[:300], b[:300])
